@@ -730,3 +730,11 @@ val m10_step : m10 -> event -> m10 option
 val m10_run : m10 -> event list -> m10 option
 
 val chk_C10 : event list -> bool
+
+val had_ref : aid list -> aid -> bool
+
+val prov_step : sys -> aid list -> event -> aid list option
+
+val prov_run : sys -> aid list -> event list -> (sys * aid list) option
+
+val chk_C05 : event list -> bool
